@@ -4,6 +4,7 @@ import checklib
 
 SET = "ds/set_impl.go:set."
 OM = "ds/orderedmap/orderedmap.go:OrderedMap."
+SM = "ds/shrinkingmap/shrinkingmap.go:"
 
 
 def regen(ctx):
@@ -11,8 +12,14 @@ def regen(ctx):
     return checklib.regen_skeletons(
         ctx,
         [SET + m for m in ("Add", "AddAll", "Delete", "DeleteAll", "Apply", "Compute", "Replace", "apply")] +
-        [OM + m for m in ("Set", "Delete", "Get", "Has", "Clear", "ForEach", "ForEachReverse", "Head", "Tail", "Size", "IsEmpty", "Clone")],
-        extra_methods=["Set", "Delete", "Get", "Has", "Clear", "ToSlice", "ForEach", "ForEachReverse", "Range", "apply", "Size", "Clone"])
+        [OM + m for m in ("Set", "Delete", "Get", "Has", "Clear", "ForEach", "ForEachReverse", "Head", "Tail", "Size", "IsEmpty", "Clone")] +
+        # the dictionary layer (ShrinkingMap as the ordered map and SetArithmetic use it) and the shapes of all anchored types
+        [SM + "ShrinkingMap." + m for m in ("Set", "Get", "Has", "Compute", "Delete", "Clear", "delete", "shouldShrink", "shrink")] +
+        [SM + "type=ShrinkingMap", SM + "type=Options", "ds/orderedmap/orderedmap.go:type=OrderedMap", "ds/orderedmap/element.go:type=Element",
+         "ds/serializableorderedmap/serializable_orderedmap.go:type=SerializableOrderedMap", "ds/set_impl.go:type=set",
+         "ds/set_impl.go:type=readableSet", "ds/set_impl.go:type=setMutations", "ds/set_impl.go:type=setArithmetic", "ds/set_impl.go:setArithmetic.elementsCollector"],
+        extra_methods=["Set", "Delete", "Get", "Has", "Clear", "ToSlice", "ForEach", "ForEachReverse", "Range", "apply", "Size", "Clone",
+                       "delete", "shouldShrink", "shrink", "Compute"])
 
 
 SPEC = {
@@ -37,6 +44,14 @@ SPEC = {
         "C11_skeleton_OrderedMap_ForEachReverse", "C11_skeleton_OrderedMap_Head", "C11_skeleton_OrderedMap_Tail",
         "C11_skeleton_OrderedMap_Size", "C11_skeleton_OrderedMap_IsEmpty", "C11_skeleton_OrderedMap_Clone",
         "C11_clone_reentrant_deadlock_witness", "C11_source_applymutex_deadlock_witness",
+        "C11_dict_shrink_transparent",
+        "C11_skeleton_ShrinkingMap_delete", "C11_skeleton_ShrinkingMap_shouldShrink", "C11_skeleton_ShrinkingMap_shrink",
+        "C11_skeleton_ShrinkingMap_Delete", "C11_skeleton_ShrinkingMap_Set", "C11_skeleton_ShrinkingMap_Get",
+        "C11_skeleton_ShrinkingMap_Has", "C11_skeleton_ShrinkingMap_Compute", "C11_skeleton_ShrinkingMap_Clear",
+        "C11_skeleton_setArithmetic_elementsCollector",
+        "C11_skeleton_type_OrderedMap", "C11_skeleton_type_Element", "C11_skeleton_type_SerializableOrderedMap",
+        "C11_skeleton_type_set", "C11_skeleton_type_readableSet", "C11_skeleton_type_setMutations",
+        "C11_skeleton_type_setArithmetic", "C11_skeleton_type_ShrinkingMap", "C11_skeleton_type_Options",
     ],
     "trusted_base": [
         "hand-written models Hive/Model/OMap.lean (abstract ordered map, ds.Set, SetMutations, SetArithmetic, byte format), "
